@@ -741,14 +741,34 @@ func (c *Ctx) checkRefusal(serve *ssa.Function, refusal []ssa.CallInstruction) {
 	key := "(*Mux).serve: built-in refusal"
 	resp := an.Strip(w.Common().Args[1])
 	call, ok := resp.(*ssa.Call)
+	var reqV ssa.Value = serve.Params[2] // the request, as seen where the refusal is built
 	if ok && !an.CalleeIs(call.Common(), G, "(*Request).NewResponse") {
-		// a helper of the request that builds the refusal by hand: interpret it
 		if h := an.StaticCallee(call.Common()); h != nil && an.InModule(h) && len(h.Blocks) > 0 && len(call.Common().Args) == 1 && an.Strip(call.Common().Args[0]) == ssa.Value(serve.Params[2]) {
-			c.checkRefusalHelper(key, call, h)
-			return
+			// a helper of the request that does nothing but `return r.NewResponse(<options>)`: judge that call
+			var inner *ssa.Call
+			n := 0
+			for _, ic := range an.Calls(h) {
+				if an.CalleeIs(ic.Common(), G, "(*Request).NewResponse") {
+					n++
+					inner, _ = ic.(*ssa.Call)
+				}
+			}
+			all := inner != nil && n == 1
+			for _, ret := range an.Returns(h) {
+				if res := an.ReturnResults(ret); len(res) != 1 || an.Strip(res[0]) != ssa.Value(inner) {
+					all = false
+				}
+			}
+			if all {
+				call, reqV = inner, h.Params[0]
+			} else {
+				// ... or builds the refusal by hand: interpret it
+				c.checkRefusalHelper(key, call, h)
+				return
+			}
 		}
 	}
-	if !ok || !an.CalleeIs(call.Common(), G, "(*Request).NewResponse") || an.Strip(call.Common().Args[0]) != ssa.Value(serve.Params[2]) {
+	if !ok || !an.CalleeIs(call.Common(), G, "(*Request).NewResponse") || an.Strip(call.Common().Args[0]) != reqV {
 		R.Unknown("C03-refusal", key, c.pos(w), "the refusal is not built with req.NewResponse(...)")
 		return
 	}
@@ -771,7 +791,7 @@ func (c *Ctx) checkRefusal(serve *ssa.Function, refusal []ssa.CallInstruction) {
 	R.Check(code != nil && isK && k == want53 && want53 == 53, "C03-refusal", key+": result code unwillingToPerform", c.pos(call), "WithResponseCode(53)", "refusal does not carry result code 53")
 	// message ID: NewResponse uses r.message.GetID() (checked as part of C04-ctor); here: receiver is req
 	R.OK("C03-refusal", key+": built from the request", c.pos(call), "req.NewResponse(...): message ID is req.message.GetID() (C04-ctor)")
-	c.checkRefusalTags(key, call, app, serve.Params[2])
+	c.checkRefusalTags(key, call, app, reqV)
 }
 
 // checkRefusalHelper: the refusal is built by a branch-free method of the
